@@ -658,6 +658,7 @@ package table
 //@ props C11 C14
 //@ spec wfAgg(a bgp.PathAttributeInterface) bool = typeOf(a) == (*bgp.PathAttributeAggregator) && a.(*bgp.PathAttributeAggregator) != nil && a.(*bgp.PathAttributeAggregator).Value.Askind == reflect.Uint32 ==> a.(*bgp.PathAttributeAggregator).Length == 8
 //@ func UpdatePathAggregator4ByteAs
+//@   tag C11 C14 C06
 //@   address-quant
 //@   assume-checks
 //@   requires msg != nil
@@ -669,6 +670,10 @@ package table
 // from C14 (RFC 6793 4.2.3): AS4_AGGREGATOR stands in for an AGGREGATOR that carries AS_TRANS; an AGGREGATOR with a
 // real AS number is left as received
 //@   at-return requires aggAttr != nil && agg4Attr != nil && old(aggAttr.Value.AS) != bgp.AS_TRANS ==> aggAttr.Value.AS == old(aggAttr.Value.AS)
+// from C06 "the reaction is the strongest one any of its errors calls for" (and no stronger): an AS4_AGGREGATOR that
+// arrives without an AGGREGATOR - also because a malformed AGGREGATOR next to it was discarded, which RFC 7606 7.7
+// asks for - is not an error of the UPDATE by any RFC; the conversion step never asks for a session reset
+//@   at-return requires ret0 == nil
 
 // from C14 / C08 (RFC 6793 6): what a 4-octet speaker sent in AS4_PATH / AS4_AGGREGATOR is dropped, every other
 // attribute stays, in order; the slice the message had is not written to (it may be shared with the decoder's)
